@@ -35,6 +35,10 @@ func Wrap(block cipher.Block, cek []byte) ([]byte, error) {
 	if len(cek)%8 != 0 {
 		return nil, errors.New("cek must be in 8-byte blocks")
 	}
+	// RFC-3394 defines the algorithm for key data of at least two 64-bit blocks
+	if len(cek) < 16 {
+		return nil, errors.New("cek must be at least 16 bytes")
+	}
 
 	// Initialize variables
 	a := make([]byte, 8)
@@ -76,8 +80,8 @@ func Wrap(block cipher.Block, cek []byte) ([]byte, error) {
 // Unwrap decrypts the provided cipher text with the given AES cipher (and corresponding key), using the AES Key Wrap algorithm (RFC-3394).
 // The decrypted cipher text is verified using the default IV and will return an error if validation fails.
 func Unwrap(block cipher.Block, cipherText []byte) ([]byte, error) {
-	// The wrapped key contains the 64-bit integrity check value and at least one 64-bit block of key data
-	if len(cipherText) < 16 || (len(cipherText)%8) != 0 {
+	// The wrapped key contains the 64-bit integrity check value and at least two 64-bit blocks of key data (RFC-3394)
+	if len(cipherText) < 24 || (len(cipherText)%8) != 0 {
 		return nil, errors.New("invalid length for the wrapped key")
 	}
 
